@@ -479,7 +479,18 @@ def check_overlay(ck, R):
                 [fa.xnorm(a, fa.nodes(c)[0]) for a in c.args[1:]] == ["%s.content_key" % v_] * 2
             # every entry is referenced: no iteration starts the next one or leaves the loop before the call
             starts = [d for (d, l) in cfg.succ[n.id] if l == "T"]
-            live = cfg.reach(starts, removed=fa.nodes(c), edge_ok=lambda a, b, l: l != "exc")
+            # (an entry whose content key is None -- a null value, nothing is stored for it -- has nothing to reference)
+
+            def _not_null_entry(a, b, l, v_=v_):
+                if l == "exc":
+                    return False
+                nd = cfg.node(a)
+                if nd.kind == "test" and l in ("T", "F") and isinstance(nd.ast, ast.Compare):
+                    (txt, pol) = fa._literal(nd.ast, a, l == "T")
+                    if pol and txt == "%s.content_key is None" % v_:
+                        return False
+                return True
+            live = cfg.reach(starts, removed=fa.nodes(c), edge_ok=_not_null_entry)
             okr = okr and n.id not in live and cfg.exit not in live
     okr = okr and bool(refs)
     if okr:
@@ -1276,7 +1287,10 @@ def check_parent_objects_brought_over(ck, R):
             def excused(txt, pol):
                 same = ("%s is self" % src) in txt or ("self is %s" % src) in txt
                 there = "exists" in txt
-                return (same or there) and not pol
+                if (same or there) and not pol:
+                    return True
+                # a null value has no stored object: `<key parameter> is None` was tested and found false on this path
+                return (not pol) and any(txt == "%s is None" % p_ for p_ in m.params[2:4])
             if conds and all(all(excused(t, p_) for (t, p_) in conj) for conj in conds):
                 ok = True
             else:
@@ -1284,7 +1298,48 @@ def check_parent_objects_brought_over(ck, R):
         ck.ob(R, fa.key(None, "brings-over"), ok, "an object of another data source is read from it and stored here" if ok else
               "%s.reference %s: a partition merged onto a parent produced in another store is written with an index that points at objects its own "
               "store does not have; read back, it lists the parent-only keys and fails to load them" % (cls.name, why), fa.where())
+        # a null value has no stored object: the store loop hands its (absent) content key to reference() like any other, so an
+        # implementation that looks at the keys must not look into a None (D52) -- unless every caller filters them out
+        keys = set(m.params[2:4])
+        uses = []
+        for x in A.walk_body(fa.node):
+            if isinstance(x, ast.Attribute) and isinstance(x.value, ast.Name) and x.value.id in keys and isinstance(x.ctx, ast.Load):
+                uses.append(x)
+            if isinstance(x, ast.Call) and A.call_recv(x) is not None and A.norm(A.call_recv(x)) in ("self", src) and A.call_attr(x) not in ("format",) \
+                    and any(isinstance(a, ast.Name) and a.id in keys for a in list(x.args) + [k.value for k in x.keywords]):
+                uses.append(x)
+        bad = None
+        for x in uses:
+            st = fa.stmt_of(x)
+            if st is None or not fa.nodes(st):
+                continue
+            used = {a.id for a in ast.walk(x) if isinstance(a, ast.Name) and a.id in keys}
+            conds = fa.conditions(st)
+            if conds is None or not all(all(("%s is None" % k_, False) in conj for k_ in used) for conj in conds):
+                bad = x
+                break
+        okn = bad is None or _callers_filter_null_keys(ck)
+        ck.ob(R, fa.key(None, "null-value-has-no-object"), okn, "the keys are looked into only once they are known not to be None" if okn else
+              "%s.reference looks into its key (`%s`) without having excluded None: a merge parent that holds a None value (which has no content "
+              "key) makes the child's store raise AttributeError out of the call" % (cls.name, A.short(bad, 60)), fa.where(bad))
     ck.need(n >= 1, "no DataSource implementation with a reference() method found")
+
+
+def _callers_filter_null_keys(ck) -> bool:
+    """Every `<data source>.reference(src, k, k2)` call in the package is reached only with k / k2 tested not to be None."""
+    sites = 0
+    for fi in ck.repo.all_funcs():
+        for c in A.walk_body(fi.node):
+            if isinstance(c, ast.Call) and A.call_attr(c) == "reference" and len(c.args) == 3:
+                fa = FA(ck, fi)
+                if not fa.nodes(c):
+                    continue
+                sites += 1
+                conds = fa.conditions(fa.stmt_of(c))
+                ks = [fa.xnorm(a, fa.nodes(c)[0]) for a in c.args[1:]]
+                if conds is None or not all(all(("%s is None" % k_, False) in conj for k_ in ks) for conj in conds):
+                    return False
+    return sites > 0
 
 
 # ---- R9: what one store() call computes travels with the object being stored, never on the strategy ------------
